@@ -125,3 +125,90 @@ IT_REDUCED = (
 )
 
 IT_ROOTS_ALL = ("L", "Lloose", "Lunb", "L1", "E0", "Eloose")
+
+
+# ------------------------------------------------------------------ SQL world
+XROWS = ((2, 1, 14), (1, 2, 13), (2, 1, 12), (1, 1, 11), (3, 2, 10), (2, 1, 14))
+YROWS = ((1, 1, 21), (2, 2, 22), (1, 1, 21))
+KROWS = ((1, 7), (2, 8), (2, 9), (4, 1))
+K2ROWS = ((1, 5), (2, 6), (2, 7))
+ABC = ("a", "b", "c")
+
+
+def sql_world():
+    s = "s"
+    leaves = (
+        LeafSpec("X", s, ABC, XROWS),
+        LeafSpec("Xloose", s, ABC, XROWS, min_rows=2, max_rows=9),
+        LeafSpec("Xunb", s, ABC, XROWS, min_rows=0, max_rows=None),
+        LeafSpec("X1", s, ABC, XROWS[:1]),
+        LeafSpec("Y", s, ABC, YROWS),
+        LeafSpec("K", s, ("a", "d"), KROWS),
+        LeafSpec("K2", s, ("b", "d2"), K2ROWS),
+        LeafSpec("E", s, ABC, (), min_rows=0, max_rows=0),
+        LeafSpec("Eloose", s, ABC, (), min_rows=0, max_rows=3),
+        LeafSpec("D0", s, ABC, (), special="doomed"),
+        LeafSpec("I0", s, (), ((),), special="identity"),
+    )
+    return World(engines=(("s", "sql"),), leaves=leaves)
+
+
+P_D_GT_A = ("gt", R("d"), R("a"))
+P_C_GE_13 = ("ge", R("c"), L(13))
+
+SQL_CALC = (("calc", "x", NEG_A), ("calc", "x", A_PLUS_B))
+SQL_PROJ = (("proj", ("a", "b")), ("proj", ("a",)), ("proj", ("b", "c")), ("proj", ()), ("proj_all",))
+SQL_SEL = tuple(("sel", p) for p in (P_A_GT_1, P_B_EQ_1, P_FALSE, P_C_GE_13, P_TRUE, P_A_RANGE))
+SQL_SORT = (
+    S((R("a"), ASC)),
+    S((R("b"), DESC), (R("a"), ASC)),
+    S((R("c"), ASC), (R("a"), ASC), (R("b"), ASC)),
+    S((R("c"), DESC)),
+    S((R("x"), ASC), (R("c"), DESC)),
+    S(),
+)
+SQL_SLICE = tuple(("slice", s, e) for s, e in ((0, 1), (1, 3), (2, None), (0, 0), (0, None), (3, 5)))
+SQL_CHAIN = (
+    ("chain", ("self",)),
+    ("chain", ("Y",)),
+    ("chain", ("E",)),
+    ("chain", ("Y", S((R("c"), ASC)), ("slice", 1, None))),
+    ("chain", ("Y", ("proj", ("a", "b")))),
+    ("chain", ("Y", ("chain", ("X",)))),
+)
+SQL_JOIN = (
+    ("join", ("K",), None, False),
+    ("join", ("K",), P_D_GT_A, False),
+    ("join", ("K",), None, True),
+    ("join", ("K2",), None, False),
+    ("join", ("Y", ("proj", ("a", "b"))), None, False),
+    ("join", ("Y", ("proj", ("a", "b"))), None, True),
+    ("join", ("I0",), None, False),
+    ("join", ("Y", ("chain", ("Y",)), ("proj", ("a",))), None, False),
+    ("join", ("K", ("dedup",)), None, False),
+    ("join", ("K", S((R("d"), ASC)), ("slice", 0, 2)), None, False),
+)
+SQL_OTHER = (("dedup",), ("mat", "m1"))
+SQL_FULL = SQL_CALC + SQL_PROJ + SQL_SEL + SQL_SORT + SQL_SLICE + SQL_CHAIN + SQL_JOIN + SQL_OTHER
+
+SQL_REDUCED = (
+    ("calc", "x", NEG_A),
+    ("proj", ("a", "b")),
+    ("proj", ("b", "c")),
+    ("proj", ()),
+    ("sel", P_A_GT_1),
+    ("sel", P_FALSE),
+    ("dedup",),
+    S((R("b"), DESC), (R("a"), ASC)),
+    S((R("c"), ASC), (R("a"), ASC), (R("b"), ASC)),
+    S((R("c"), DESC)),
+    ("slice", 1, 3),
+    ("slice", 2, None),
+    ("slice", 0, 0),
+    ("chain", ("self",)),
+    ("chain", ("Y",)),
+    ("join", ("K",), None, False),
+    ("join", ("Y", ("proj", ("a", "b"))), None, False),
+    ("mat", "m1"),
+)
+SQL_ROOTS_ALL = ("X", "Xloose", "Xunb", "X1", "E", "Eloose")
